@@ -551,7 +551,8 @@ def ordered_flag_validity(facts):
                     rec(n["e"], guards + [{"k": "Un", "op": "!", "e": n["c"]}])
                 return
             if n.get("k") == "Call" and (n.get("cname") == "sort" or (n.get("callee") or "").startswith("std::sort")):
-                sorts.append(list(guards))
+                # everything known to hold at the call: nested ifs and guard clauses (`if (!c) return;`) alike
+                sorts.append(list(reach(fn["body"], n)))
             for kk, vv in n.items():
                 if kk not in ("t", "e") or n.get("k") != "If":
                     rec(vv, guards)
